@@ -102,22 +102,34 @@ func GenTagSoup(t *rapid.T, s StrSrc, maxTokens int) string {
 	return b.String()
 }
 
-var indentingTags = []string{"blockquote", "ul><li", "h1", "h2", "h3", "h4", "h5", "h6", "pre", "div", "p", "a href=\"https://x.test/\"", "b", "span", "code", "li", "foo"}
+var blockTags = []string{"blockquote", "ul><li", "h1", "h2", "h3", "h4", "h5", "h6", "pre", "div", "p", "li"}
+var inlineNestTags = []string{"b", "i", "em", "strong", "u", "s", "code", "mark", "span", "a href=\"https://x.test/\"", "foo", "ins", "del"}
 
-// GenDeepHTML nests `depth` elements (one tag or a mix) around a payload.
-func GenDeepHTML(t *rapid.T, depth int, payload string) (string, int) {
+// GenDeepHTML nests `depth` elements around a payload: one tag repeated, or a mix drawn from
+// `tags`. It returns the document and how many of the nested elements are block elements
+// (the ones whose rendering pads, indents or re-wraps the text of their children).
+func GenDeepHTML(t *rapid.T, depth int, payload string, tags []string) (string, int) {
 	mixed := rapid.Bool().Draw(t, "mixed")
-	single := rapid.SampledFrom(indentingTags).Draw(t, "deeptag")
+	pair := rapid.Bool().Draw(t, "alternating-pair")
+	single := rapid.SampledFrom(tags).Draw(t, "deeptag")
+	second := rapid.SampledFrom(tags).Draw(t, "deeptag2")
 	var open, closeb strings.Builder
 	closers := []string{}
-	quotes := 0
+	blocks := 0
+	isBlock := map[string]bool{}
+	for _, b := range blockTags {
+		isBlock[b] = true
+	}
 	for i := 0; i < depth; i++ {
 		tag := single
-		if mixed {
-			tag = rapid.SampledFrom(indentingTags).Draw(t, "mixtag")
+		switch {
+		case mixed:
+			tag = rapid.SampledFrom(tags).Draw(t, "mixtag")
+		case pair && i%2 == 1:
+			tag = second
 		}
-		if tag == "blockquote" {
-			quotes++
+		if isBlock[tag] {
+			blocks++
 		}
 		open.WriteString("<" + tag + ">")
 		c := ""
@@ -130,8 +142,11 @@ func GenDeepHTML(t *rapid.T, depth int, payload string) (string, int) {
 	for i := len(closers) - 1; i >= 0; i-- {
 		closeb.WriteString(closers[i])
 	}
-	return open.String() + payload + closeb.String(), quotes
+	return open.String() + payload + closeb.String(), blocks
 }
+
+func BlockTags() []string      { return blockTags }
+func InlineNestTags() []string { return inlineNestTags }
 
 func GenHostileMarkdown(t *rapid.T, s StrSrc) string {
 	n := rapid.IntRange(1, 6).Draw(t, "nmd")
